@@ -793,6 +793,9 @@ class Lib:
                 # the name itself denotes an inner container that was just mutated: write through to base[key]
                 if al['stale'] or al.get('detached'):
                     raise Undecided(f'mutation through {node.id}, whose link to {al["base_txt"]}[...] is no longer known')
+                if 'attr' in al:
+                    self.write_back(I, al['attr'], new, scope, _via=node.id, _how=('mutate', None))
+                    return
                 base_val = I.eval(al['base'], scope)
                 if isinstance(base_val, SV):
                     self.write_back(I, al['base'], self.store(I, base_val, al['key'], new), scope, _via=node.id, _how=('mutate', al['key']))
@@ -836,7 +839,7 @@ class Lib:
             for name, al in s.aliases.items():
                 if name == via or al['base_txt'] != written_txt:
                     continue
-                if how is None:
+                if how is None or 'attr' in al:
                     al['stale'] = True
                 elif not self._may_equal(I, al['key'], how[1]):
                     continue
